@@ -862,10 +862,19 @@ impl Parser for BlockStatement {
 impl Parser for Statement {
     fn parse<'a>(this: Option<&Self>, input: TokenStream<'a>) -> IResult<'a, Self> {
         fn parse_error(input: TokenStream) -> IResult<Statement> {
+            // A failing alternative must not consume the leading comments:
+            // `expect` continues from the input carried by the error.
+            let original_input = input.clone();
             let (input, ((_, ignored), mut info)) = info(tuple((
                 many0(comment),
                 ignore_until1(peek(look_ahead::stmt)),
-            )))(input)?;
+            )))(input)
+            .map_err(|err| {
+                err.map(|err| ParserError {
+                    input: original_input,
+                    ..err
+                })
+            })?;
             let err = SplError(
                 info.to_range(),
                 ParseErrorMessage::UnexpectedCharacters(
